@@ -144,10 +144,13 @@ func TestC11(t *testing.T) {
 		for i := 0; i < r.N(100, 3000); i++ {
 			coalesceCase(t, r, i)
 		}
+		for i := 0; i < r.N(100, 3000); i++ {
+			tickerOverlapCase(t, r, i)
+		}
 		realServer(t, r)
 	}
 	r.Require("polls_ok", "polls_failed", "changes_forward", "changes_backward", "changes_inside_window", "expired_with_handle_polls",
-		"cadence_rounds", "coalesced_refreshes", "coalesced_with_cancelled_leader", "real_server_refreshes", "final_convergence_checks")
+		"cadence_rounds", "ticker_overlap_cases", "coalesced_refreshes", "coalesced_with_cancelled_leader", "real_server_refreshes", "final_convergence_checks")
 	r.Rule("A: seeded histories of 8-25 events over 2-5 secrets (declared, looked-up, expiry-aged with a live unread handle): service changes (new version / re-activate an older one / bursts), Refresh with per-request failure and hold scripts (service changes inside the held window), sleeps up to several expiry ages, handle probes; oracle after every Refresh on the cache payload and at probes on handles. Plus cadence cases (background poller, instant service), coalescing cases (K refreshes while the first request is parked) and B: real server+client histories. Distinct = (event kind, poll outcome, backwards?, held?, expiry shape)")
 }
 
@@ -632,3 +635,77 @@ func realServer(t *testing.T, r *evid.Run) {
 func newMux(t *testing.T, d interface{}) *muxT { return buildMux(t, d) }
 
 var _ = server.ACLCap
+
+type manualTicker struct{ ch chan time.Time }
+
+func (m manualTicker) Chan() <-chan time.Time { return m.ch }
+func (manualTicker) Stop()                    {}
+func (manualTicker) Done()                    {}
+
+// tickerOverlapCase: a poll started by the background ticker is still waiting for the service when the
+// application calls Refresh. The two must be one round of requests; in particular no older round may
+// finish last and put an older version back.
+func tickerOverlapCase(t *testing.T, r *evid.Run, idx int) {
+	rng := r.Rand(uint64(6_500_000 + idx))
+	r.Eval(1)
+	synctest.Test(t, func(t *testing.T) {
+		svc := fakesvc.New()
+		names := []string{"a", "b", "c"}[:1+rng.IntN(3)]
+		for _, n := range names {
+			svc.Set(n, 1, []byte(n+"1"))
+		}
+		gate := make(chan struct{})
+		first := true
+		svc.Behave = func(q *fakesvc.Req) fakesvc.Behaviour {
+			if q.Cond && first {
+				first = false
+				return fakesvc.Behaviour{Hold: gate}
+			}
+			return fakesvc.Behaviour{}
+		}
+		tick := manualTicker{ch: make(chan time.Time)}
+		st, err := setec.NewStore(context.Background(), setec.StoreConfig{Client: svc, Secrets: names, PollTicker: tick, Logf: func(string, ...any) {}})
+		if err != nil {
+			t.Fatalf("NewStore: %v", err)
+		}
+		defer st.Close()
+		for _, n := range names {
+			svc.Set(n, 2, []byte(n+"2"))
+		}
+		base := svc.NumRequests()
+		tick.ch <- time.Now() // the background poll begins and parks on its first request
+		synctest.Wait()
+		done := make(chan error, 1)
+		go func() { done <- st.Refresh(context.Background()) }()
+		synctest.Wait() // the explicit refresh is now either joined to the poll in flight or parked behind it
+		// the service moves on while the first round's held request is still outstanding
+		for _, n := range names {
+			svc.Set(n, 3, []byte(n+"3"))
+		}
+		close(gate)
+		err = <-done
+		synctest.Wait()
+		nreq := svc.NumRequests() - base
+		r.Count("ticker_overlap_cases", 1)
+		r.Distinct(fmt.Sprintf("ticker-overlap names=%d", len(names)))
+		if nreq != len(names) {
+			r.Violation("refreshes-not-coalesced", idx, fmt.Sprintf("ticker-overlap case %d: a background poll and an overlapping Refresh over %d secrets caused %d requests (one round = %d)", idx, len(names), nreq, len(names)), map[string]any{"log": svc.Log()})
+			return
+		}
+		if err != nil {
+			r.Violation("coalesced-refresh-error", idx, fmt.Sprintf("ticker-overlap case %d: %v", idx, err), nil)
+			return
+		}
+		// whatever was installed must be something the service had active during the round, and a further
+		// poll must settle on version 3
+		if err := st.Refresh(context.Background()); err != nil {
+			r.Violation("clean-poll-fails", idx, err.Error(), nil)
+			return
+		}
+		for _, n := range names {
+			if got := string(st.Secret(n).Get()); got != n+"3" {
+				r.Violation("no-convergence", idx, fmt.Sprintf("ticker-overlap case %d: %q yields %q after a clean poll, the service has %q", idx, n, got, n+"3"), nil)
+			}
+		}
+	})
+}
